@@ -13,3 +13,5 @@ import Goat.Lemmas.OMap
 import Goat.Props.C10
 import Goat.Model.Load
 import Goat.Props.C15
+import Goat.Model.TreeSort
+import Goat.Props.C16
